@@ -867,3 +867,59 @@ def slow_reader(tier, seed):
 @replayer('C14', 'slow-reader')
 def _replay_slow(f):
     return _run(_slow_reader_case(f['input']['commands'][0], f['input']['free_octets_in_the_pipe'])) is None
+
+
+# ---------------------------------------------------------------------------------------------------------------------
+# commands between `group start` and `group end` are buffered and acknowledged at once: whatever is acknowledged `done`
+# is executed when the group ends (a command the group cannot carry is answered `error`, not dropped after a `done`)
+async def _group_case(inner, effect):
+    global TWO_NEIGHBORS
+    saved = TWO_NEIGHBORS
+    TWO_NEIGHBORS = WATCHDOG_CONF
+    try:
+        w = _Api()
+    finally:
+        TWO_NEIGHBORS = saved
+    lines = ['group start', inner, 'announce route 10.9.5.0/24 next-hop 192.0.2.1', 'group end']
+    inp = {'commands': lines}
+    try:
+        for ln in lines:
+            w.deliver((ln + '\n').encode())
+            for _ in range(6):
+                await w.iterate()
+        for _ in range(40):
+            if w.idle():
+                break
+            await w.iterate()
+        got = [t for t in (terminal(l) for l in w.replies()) if t]
+        if len(got) != 4 or got[0] != 'done' or got[2] != 'done' or got[3] != 'done':
+            return {'what': f'replies {got} to a group of 4 lines', 'input': inp}
+        have = {nb: {p for s, p in v if s == '+'} for nb, v in w.ribs().items()}
+        for nb in (N1, N2):
+            if '10.9.5.0/24' not in have.get(nb, set()):
+                return {'what': f'the route of the group did not reach neighbor {nb}', 'input': inp}
+            if got[1] == 'done' and effect is not None and effect not in have.get(nb, set()):
+                return {'what': f'`{inner}` was acknowledged done inside the group and was not executed when the group ended (neighbor {nb} announces {sorted(have.get(nb, set()))})', 'input': inp}
+        return None
+    finally:
+        w.close()
+
+
+GROUP_INNER = [('announce watchdog w', '10.5.0.0/24'), ('announce route 10.9.6.0/24 next-hop 192.0.2.1', '10.9.6.0/24'), ('announce ipv4 unicast 10.9.7.0/24 next-hop 192.0.2.1', '10.9.7.0/24'), ('announce eor ipv4 unicast', None), ('announce frobnicate', None)]
+
+
+@bounded('C14', 'commands-inside-a-group')
+def commands_inside_a_group(tier, seed):
+    fails = []
+    for inner, effect in GROUP_INNER:
+        with _quiet():
+            f = _run(_group_case(inner, effect))
+        if f:
+            fails.append(f)
+    return {'evaluations': len(GROUP_INNER), 'distinct_nontrivial': len(GROUP_INNER), 'exhaustive': True, 'bound': 'group start / one command / a route / group end, the one command being a watchdog announce, two route forms, an End-of-RIB request and an unknown sub-command: one terminal reply per line, and what is acknowledged done is executed when the group ends', 'rule': 'one case = the command inside the group', 'samples': [{'commands': ['group start', GROUP_INNER[0][0], 'group end']}], 'failures': fails}
+
+
+@replayer('C14', 'commands-inside-a-group')
+def _replay_group(f):
+    inner = f['input']['commands'][1]
+    return _run(_group_case(inner, dict(GROUP_INNER)[inner])) is None
